@@ -182,7 +182,23 @@ type c06Stream struct {
 	buffered int64 // response data sent minus read by the caller
 	closedB  bool  // Body.Close called
 	tokIdx   int   // index of the `o` token of this stream in the executed script
+
+	head      bool // HEAD request
+	trailer   int  // -1: Request.Trailer nil; else the length of the declared trailer's value
+	trlLen    int  // trailer block length measured on the wire
+	trlOpen   bool // a trailer block is being received (HEADERS seen, END_HEADERS not yet)
+	trlSeen   bool
+	gotFinal  bool  // the final (non-1xx) response headers have been sent
+	n1xx      int   // informational responses sent so far
+	remain    int64 // Content-Length still to be read (-1: none declared)
+	readErr   bool  // a Read hit "more than declared Content-Length"
+	extended  bool  // the stream needs the long form of the open token
 }
+
+// reqDone: the client considers the request written - it has sent END_STREAM, or the request has
+// no body (then it marks the stream as ended whatever its HEADERS frame said: finding
+// c06-trailers-without-body).
+func (st *c06Stream) reqDone() bool { return st.endSeen || st.body == nil }
 
 func (st *c06Stream) dead() bool {
 	if st.cs == nil {
@@ -225,9 +241,17 @@ type c06Env struct {
 	acksSent     int
 	pingSeq      uint64
 	pingAcked    uint64
+	scriptPings     uint64 // PINGs sent by the script (payload c06ScriptPing + n)
+	scriptPingAcked uint64
 	closed       bool
 	goAwaySent   bool
 	noReuse      bool
+
+	noForcedWake bool // wake-up lane: do not broadcast on cc.cond after every operation
+	lostWakeups  []string
+	curTok       string // the operation in progress (for diagnostics)
+	settingsSent bool   // the peer has sent its first SETTINGS frame
+	exactHits    int    // adaptive scripts: header / trailer blocks of exactly the targeted length
 
 	deadSeen int
 	woke     bool     // the operation in progress ends with a cond.Broadcast in the client
@@ -238,6 +262,9 @@ type c06Env struct {
 }
 
 const c06Wait = 2 * time.Second
+
+// payloads of scripted PINGs start here; smaller ones are the harness's barrier PINGs
+const c06ScriptPing = uint64(1) << 40
 
 func c06NewEnv(t testing.TB, cfg c06Cfg) (*c06Env, error) {
 	ln, err := net.Listen("tcp", "127.0.0.1:0")
@@ -266,6 +293,10 @@ func c06NewEnv(t testing.TB, cfg c06Cfg) (*c06Env, error) {
 	e := &c06Env{t: t, cfg: cfg, srv: a.c, frames: make(chan c06Frame, 4096), streams: map[uint32]*c06Stream{},
 		initWin: 65535, connWin: 65535, maxConc: -1, maxFrame: 16384, cInitWin: 65535, cConnWin: 65535}
 	e.henc = hpack.NewEncoder(&e.hbuf)
+	// the client may advertise SETTINGS_HEADER_TABLE_SIZE = 0 (or anything else): the peer's
+	// encoder does without a dynamic table altogether (a table size update to 0 opens its first
+	// header block), so repeated response fields are never sent as references
+	e.henc.SetMaxDynamicTableSize(0)
 	e.fr = xhttp2.NewFramer(e.srv, e.srv)
 	e.fr.AllowIllegalReads = true
 	e.fr.AllowIllegalWrites = true
@@ -386,8 +417,12 @@ func (e *c06Env) handle(f c06Frame) {
 		for i := 0; i < 8; i++ {
 			v = v<<8 | uint64(f.ping[i])
 		}
-		e.pingAcked = v
-		return
+		if v < c06ScriptPing { // a barrier PING of the harness: not part of the transcript
+			e.pingAcked = v
+			return
+		}
+		f.str = fmt.Sprintf("Y%d", v)
+		e.scriptPingAcked = v
 	}
 	if f.str != "" {
 		e.cur = append(e.cur, f.str)
@@ -447,9 +482,16 @@ func (e *c06Env) handle(f c06Frame) {
 			if f.typ == xhttp2.FrameHeaders && !e.cfg.hdrPrio.IsZero() {
 				n -= 5
 			}
-			st.hdrLen += n
-			if f.endHeaders {
-				st.hdrDone = true
+			if st.hdrDone && (f.typ == xhttp2.FrameHeaders || st.trlOpen) {
+				// a second header block on the stream: the request's trailers
+				st.trlLen += n
+				st.trlSeen = true
+				st.trlOpen = !f.endHeaders
+			} else {
+				st.hdrLen += n
+				if f.endHeaders {
+					st.hdrDone = true
+				}
 			}
 			if f.end {
 				st.endSeen = true
@@ -504,8 +546,8 @@ func (e *c06Env) collect(pred func() bool, d time.Duration) bool {
 
 // sync: everything the client wrote before answering this PING has been received.
 func (e *c06Env) sync() {
-	if e.closed {
-		return
+	if e.closed || !e.settingsSent {
+		return // (the client insists on SETTINGS as the peer's first frame: no barrier PING before it)
 	}
 	e.pingSeq++
 	var d [8]byte
@@ -545,8 +587,8 @@ func (e *c06Env) settled() bool {
 			}
 			continue
 		}
-		if st.released == st.total && !st.endSeen {
-			return false // END_STREAM (on the last DATA, or an empty DATA) is still to come
+		if st.released == st.total && (!st.endSeen || st.trlOpen) {
+			return false // END_STREAM (on the last DATA, an empty DATA, or the trailers) is still to come
 		}
 	}
 	return true
@@ -574,7 +616,7 @@ func (e *c06Env) afterOp(forgot bool) {
 	// a stream that is closed on both sides is forgotten
 	for _, id := range e.order {
 		st := e.streams[id]
-		if !st.aborted && st.endSeen && st.peerEnd && st.cs != nil {
+		if !st.aborted && st.reqDone() && st.peerEnd && st.cs != nil {
 			if !st.dead() {
 				e.waitDone(st)
 			}
@@ -672,20 +714,40 @@ func (e *c06Env) creditOwed() int64 {
 
 // ---- caller operations
 
-func (e *c06Env) startRoundTrip(bodyLen int, known bool, padLen int) *c06Stream {
+// c06Shape is what a scripted request looks like beyond its body: method HEAD, declared
+// trailers (trailer < 0: none; else one trailer field whose value has that many octets, 0 = the
+// key is declared but has no value when the upload ends).
+type c06Shape struct {
+	head    bool
+	trailer int
+}
+
+func (e *c06Env) startRoundTrip(bodyLen int, known bool, padLen int, sh c06Shape) *c06Stream {
 	ctx, cancel := context.WithCancel(context.Background())
-	st := &c06Stream{cancel: cancel, known: known, total: int64(bodyLen), respCh: make(chan c06Resp, 1), stCh: make(chan *clientStream, 1)}
+	st := &c06Stream{cancel: cancel, known: known, total: int64(bodyLen), respCh: make(chan c06Resp, 1), stCh: make(chan *clientStream, 1),
+		head: sh.head, trailer: sh.trailer, remain: -1, extended: sh.head || sh.trailer >= 0}
 	var body io.ReadCloser
 	if !(known && bodyLen == 0) {
 		st.body = c06NewBody(bodyLen)
 		body = st.body
 	}
-	req, err := http.NewRequestWithContext(ctx, "POST", "https://verif.test/upload", body)
+	method := "POST"
+	if sh.head {
+		method = "HEAD"
+	}
+	req, err := http.NewRequestWithContext(ctx, method, "https://verif.test/upload", body)
 	if err != nil {
 		panic(err)
 	}
 	if known {
 		req.ContentLength = int64(bodyLen)
+	}
+	if sh.trailer >= 0 {
+		var vals []string
+		if sh.trailer > 0 {
+			vals = []string{strings.Repeat("~", sh.trailer)}
+		}
+		req.Trailer = http.Header{"X-Trl": vals}
 	}
 	if padLen > 0 {
 		req.Header.Set("X-Pad", strings.Repeat("~", padLen)) // '~' has a 13-bit Huffman code: the literal is sent raw
@@ -715,9 +777,39 @@ func (e *c06Env) register(st *c06Stream, cs *clientStream) {
 	e.order = append(e.order, st.id)
 }
 
-// openToken renders the `o` token of a stream with the header block length measured so far.
+// openToken renders the `o` token of a stream with the header block length measured so far
+// (and the trailer block length, when one was seen: else what the encoder would produce).
 func (st *c06Stream) openToken() string {
-	return fmt.Sprintf("o:%d:%d:%s", st.hdrLen, st.total, c06B(st.known))
+	if !st.extended {
+		return fmt.Sprintf("o:%d:%d:%s", st.hdrLen, st.total, c06B(st.known))
+	}
+	tr := "-"
+	if st.trailer >= 0 {
+		n := st.trlLen
+		if !st.trlSeen && st.trailer > 0 {
+			n = c06TrailerBlockLen(st.trailer)
+		}
+		tr = fmt.Sprint(n)
+	}
+	return fmt.Sprintf("oq:%d:%d:%s:%s:%s", st.hdrLen, st.total, c06B(st.known), c06B(st.head), tr)
+}
+
+// c06TrailerBlockLen: the HPACK encoding of the one trailer field "x-trl: ~…~" (n octets, sent
+// raw: '~' has a 13-bit Huffman code) as a literal with a new name - used only for trailers that
+// were never written (the model is then not asked to split them).
+func c06TrailerBlockLen(n int) int {
+	l := 1 + 1 + 5 // prefix octet, name length, "x-trl"
+	switch {
+	case n < 127:
+		l += 1
+	case n < 127+128:
+		l += 2
+	case n < 127+16384:
+		l += 3
+	default:
+		l += 4
+	}
+	return l + n
 }
 
 // slotLimit is MAX_CONCURRENT_STREAMS as the client must see it by the peer's own books: the
@@ -734,8 +826,8 @@ func (e *c06Env) slotLimit() int64 {
 }
 
 // open returns the op token ("o:<hdrLen>:<bodyLen>:<known>").
-func (e *c06Env) open(bodyLen int, known bool, padLen int) string {
-	st := e.startRoundTrip(bodyLen, known, padLen)
+func (e *c06Env) open(bodyLen int, known bool, padLen int, sh c06Shape) string {
+	st := e.startRoundTrip(bodyLen, known, padLen, sh)
 	e.opened = append(e.opened, st)
 	// strict mode at the stream limit: the RoundTrip has to wait for a slot. That is what the
 	// peer's books say must happen; a client that goes ahead anyway shows up at once.
@@ -776,6 +868,40 @@ func (e *c06Env) resumePending(bool) {
 	st := e.pending
 	if st == nil {
 		return
+	}
+	if e.noForcedWake {
+		// wake-up lane: nobody broadcasts for the client. By the peer's books a slot is free and the
+		// connection can still take requests: the operation that made it so must have woken the
+		// waiter itself, i.e. the waiter's HEADERS are on their way (the barrier PING of afterOp has
+		// been answered: everything the client wrote while processing the operation has arrived; a
+		// woken RoundTrip needs one more scheduling round; the patience is the lane's usual one, so a
+		// loaded machine cannot turn a slow wake-up into a lost one).
+		usable := e.cc.CanTakeNewRequest() && !e.closed
+		enabled := usable && int64(e.liveCount()) < e.slotLimit()
+		if usable && !enabled {
+			return // still at the limit: it sleeps on
+		}
+		// (not usable any more: the waiter is going to fail whenever it wakes; wake it now, as the
+		// model does, so that the script is rid of it)
+		if enabled {
+			deadline := time.Now().Add(c06Wait)
+			for time.Now().Before(deadline) && e.pending != nil {
+				select {
+				case cs := <-st.stCh:
+					e.pending = nil
+					e.register(st, cs)
+					e.collect(func() bool { return st.hdrDone }, c06Wait)
+					e.collect(e.settled, c06Wait)
+					return
+				case <-time.After(time.Millisecond):
+				}
+			}
+			if e.pending == nil {
+				return
+			}
+			e.lostWakeups = append(e.lostWakeups, e.curTok)
+			// carry on as the repaired code would: wake it
+		}
 	}
 	e.cc.mu.Lock()
 	e.cc.cond.Broadcast()
@@ -842,14 +968,33 @@ func (e *c06Env) readBody(id uint32, n int) string {
 		k, _ := st.res.Body.Read(buf)
 		ch <- rr{k}
 	}()
+	live := !st.dead()
+	forgot := false
 	select {
 	case r := <-ch:
-		st.buffered -= int64(r.k)
+		// what left the pipe, by the peer's books: min(n, buffered) - more than Read returns when
+		// the response is longer than its Content-Length
+		took := int64(n)
+		if st.buffered < took {
+			took = st.buffered
+		}
+		if st.remain >= 0 && took > st.remain {
+			st.buffered -= took
+			st.readErr = true
+			st.aborted = true // "server replied with more than declared Content-Length": the stream is aborted
+			e.waitDone(st)
+			forgot = live
+		} else {
+			st.buffered -= int64(r.k)
+			if st.remain >= 0 {
+				st.remain -= int64(r.k)
+			}
+		}
 	case <-time.After(c06Wait):
 		e.timeouts++
 		e.cur = append(e.cur, "T")
 	}
-	e.afterOp(false)
+	e.afterOp(forgot)
 	return fmt.Sprintf("r:%d:%d", id, n)
 }
 
@@ -890,10 +1035,22 @@ func (e *c06Env) peerSettings(vals []xhttp2.Setting) string {
 			e.woke = true // the only setting whose processing broadcasts
 		}
 	}
+	invalid := false // the peer's own protocol violation: a connection error, no acknowledgement
+	for _, v := range vals {
+		if (v.ID == xhttp2.SettingInitialWindowSize && v.Val > math.MaxInt32) ||
+			(v.ID == xhttp2.SettingMaxFrameSize && (v.Val < 16384 || v.Val > 1<<24-1)) {
+			invalid = true
+		}
+	}
 	e.fr.WriteSettings(vals...)
-	e.pendSettings = append(e.pendSettings, vals)
-	want := e.ackSeen + 1
-	e.collect(func() bool { return e.ackSeen >= want }, c06Wait)
+	e.settingsSent = true
+	if invalid {
+		e.collect(func() bool { return e.closed }, c06Wait)
+	} else {
+		e.pendSettings = append(e.pendSettings, vals)
+		want := e.ackSeen + 1
+		e.collect(func() bool { return e.ackSeen >= want }, c06Wait)
+	}
 	e.afterOp(false)
 	return "ps:" + tok
 }
@@ -981,14 +1138,24 @@ func (e *c06Env) peerGoAway(last uint32) string {
 	return fmt.Sprintf("pg:%d", last)
 }
 
-func (e *c06Env) peerHeaders(id uint32, end bool) string {
-	e.record(fmt.Sprintf("<h:%d:%s", id, c06B(end)))
+// peerHeaders sends a complete header block. status 0 = no :status pseudo-header (a trailer
+// block); cl >= 0 adds a content-length field.
+func (e *c06Env) peerHeaders(id uint32, end bool, status int, cl int) string {
+	clTok := "-"
+	if cl >= 0 {
+		clTok = fmt.Sprint(cl)
+	}
+	tok := fmt.Sprintf("h:%d:%s:%d:%s", id, c06B(end), status, clTok)
+	e.record("<" + tok)
 	st := e.streams[id]
 	e.hbuf.Reset()
-	if st == nil || st.phSent == 0 {
-		e.henc.WriteField(hpack.HeaderField{Name: ":status", Value: "200"})
+	if status != 0 {
+		e.henc.WriteField(hpack.HeaderField{Name: ":status", Value: fmt.Sprint(status)})
 	} else {
 		e.henc.WriteField(hpack.HeaderField{Name: "x-trailer", Value: "1"})
+	}
+	if cl >= 0 {
+		e.henc.WriteField(hpack.HeaderField{Name: "content-length", Value: fmt.Sprint(cl)})
 	}
 	live := st != nil && !st.dead()
 	e.fr.WriteHeaders(xhttp2.HeadersFrameParam{StreamID: id, BlockFragment: e.hbuf.Bytes(), EndHeaders: true, EndStream: end})
@@ -996,14 +1163,32 @@ func (e *c06Env) peerHeaders(id uint32, end bool) string {
 	if st != nil {
 		st.phSent++
 		if live {
-			if st.peerEnd {
+			info := status >= 100 && status <= 199
+			switch {
+			case st.peerEnd:
 				st.aborted = true // HEADERS after END_STREAM: stream error
 				e.waitDone(st)
 				forgot = true
-			} else if st.phSent == 1 {
-				st.peerEnd, st.noBody = end, end
-				if !st.gotRes {
-					// RoundTrip returns as soon as the response headers are in
+			case !st.gotFinal && status == 0:
+				st.aborted = true // no :status: stream error
+				e.waitDone(st)
+				forgot = true
+			case !st.gotFinal && info:
+				st.n1xx++
+				if end || st.n1xx > 5 {
+					st.aborted = true // 1xx with END_STREAM / the sixth 1xx: stream error
+					e.waitDone(st)
+					forgot = true
+				}
+			case !st.gotFinal:
+				st.gotFinal = true
+				st.peerEnd, st.noBody = end, end || st.head
+				if !st.noBody {
+					st.remain = int64(cl)
+				}
+				if !st.gotRes && !(st.noBody && st.body == nil && !end) {
+					// RoundTrip returns as soon as the response headers are in (with neither a
+					// request nor a response body it waits for the end of the stream)
 					select {
 					case r := <-st.respCh:
 						st.gotRes, st.res = true, r.res
@@ -1012,19 +1197,50 @@ func (e *c06Env) peerHeaders(id uint32, end bool) string {
 						e.cur = append(e.cur, "T")
 					}
 				}
-			} else if !end {
-				e.collect(func() bool { return e.closed }, c06Wait) // trailers without END_STREAM
-			} else {
+			case status != 0 || !end:
+				e.collect(func() bool { return e.closed }, c06Wait) // a trailer block with a pseudo-header / without END_STREAM
+			default:
 				st.peerEnd = true
 			}
-			if st.peerEnd && st.endSeen && !st.aborted {
+			if st.peerEnd && st.reqDone() && !st.aborted {
 				e.waitDone(st)
 				forgot = true
 			}
 		}
 	}
 	e.afterOp(forgot)
-	return fmt.Sprintf("ph:%d:%s", id, c06B(end))
+	return "p" + tok
+}
+
+// peerPing: a PING of the script (payload c06ScriptPing+n); the acknowledgement is part of the
+// transcript of this operation.
+func (e *c06Env) peerPing(ack bool) string {
+	e.scriptPings++
+	v := c06ScriptPing + e.scriptPings
+	var d [8]byte
+	for i := 0; i < 8; i++ {
+		d[i] = byte(v >> (56 - 8*uint(i)))
+	}
+	e.record(fmt.Sprintf("<p:%s:%d", c06B(ack), v))
+	e.fr.WritePing(ack, d)
+	if !ack {
+		e.collect(func() bool { return e.scriptPingAcked == v }, c06Wait)
+	}
+	e.afterOp(false)
+	return fmt.Sprintf("pp:%s:%d", c06B(ack), v)
+}
+
+// peerPushPromise: the client advertised (or defaults to refusing) server push: connection error.
+func (e *c06Env) peerPushPromise(id, promised uint32) string {
+	e.record(fmt.Sprintf("<u:%d:%d", id, promised))
+	e.hbuf.Reset()
+	for _, f := range [][2]string{{":method", "GET"}, {":scheme", "https"}, {":authority", "verif.test"}, {":path", "/pushed"}} {
+		e.henc.WriteField(hpack.HeaderField{Name: f[0], Value: f[1]})
+	}
+	e.fr.WritePushPromise(xhttp2.PushPromiseParam{StreamID: id, PromiseID: promised, BlockFragment: e.hbuf.Bytes(), EndHeaders: true})
+	e.collect(func() bool { return e.closed }, c06Wait)
+	e.afterOp(false)
+	return fmt.Sprintf("pu:%d:%d", id, promised)
 }
 
 var c06Zeros = make([]byte, 1<<20)
@@ -1046,15 +1262,15 @@ func (e *c06Env) peerData(id uint32, n, pad int, end bool) string {
 	if st := e.streams[id]; st != nil {
 		st.cwin -= int64(n + pad)
 		if live {
-			if st.peerEnd || st.phSent == 0 {
-				st.aborted = true // DATA after END_STREAM / before HEADERS: stream error
+			if st.peerEnd || !st.gotFinal || (st.head && n > 0) {
+				st.aborted = true // DATA after END_STREAM / before the response HEADERS / on a HEAD response: stream error
 				e.waitDone(st)
 				forgot = true
 			} else {
 				st.buffered += int64(n)
 				if end {
 					st.peerEnd = true
-					if st.endSeen && !st.aborted {
+					if st.reqDone() && !st.aborted {
 						e.waitDone(st)
 						forgot = true
 					}
